@@ -439,6 +439,60 @@ def footprint_cases(draw):
     return case
 
 
+SCALE_INV = ['xcentroid', 'ycentroid', 'area', 'segment_area', 'semimajor_sigma',
+             'semiminor_sigma', 'orientation', 'eccentricity', 'elongation',
+             'ellipticity', 'fwhm', 'covar_sigx2', 'covar_sigy2', 'covar_sigxy',
+             'cxx', 'cyy', 'cxy', 'minval_xindex', 'minval_yindex',
+             'maxval_xindex', 'maxval_yindex', 'kron_radius', 'gini',
+             'xcentroid_quad', 'ycentroid_quad']
+SCALE_LIN = ['segment_flux', 'segment_fluxerr', 'min_value', 'max_value',
+             'kron_flux', 'kron_fluxerr', 'background_sum', 'background_mean',
+             'background_centroid']
+
+
+def check_scaling(case, ctx):
+    """Multiplying data, error, background and convolved data by 2^n (exact
+    in floating point) leaves positions and shapes unchanged and scales
+    flux-like columns by 2^n - also for very small / very large units."""
+    data, seg, mask, error, bkg, conv = _inputs(case)
+    if not seg.any():
+        return
+    k = case['factor']
+    ctx.event('factor_%g' % k)
+    ctx.mark(k < 1e-9 or k > 1e9)
+    labels = [int(l) for l in np.unique(seg[seg > 0])]
+    sc = lambda a: None if a is None else a * k  # noqa: E731
+    with warnings.catch_warnings():
+        warnings.simplefilter('ignore')
+        c0 = _catalog(case, data, seg, mask, error, bkg, conv)
+        c1 = _catalog(case, sc(data), seg, mask, sc(error), sc(bkg), sc(conv))
+        for i, l in enumerate(labels):
+            for col in SCALE_INV + SCALE_LIN:
+                a, b = _val(c0, col, i), _val(c1, col, i)
+                exp = a * k if col in SCALE_LIN else a
+                if col == 'orientation' and not (math.isnan(a) or math.isnan(b)):
+                    if M.angle_diff_mod180(a, b) <= 1e-7:
+                        continue
+                if not close(b, exp, 1e-9, 0.0) and not (a == 0 and b == 0):
+                    raise Violation('scale_equivariance',
+                                    f'label {l}: {col} = {a!r} for the data and '
+                                    f'{b!r} for data*{k!r} (expected {exp!r})',
+                                    column=col, factor=k)
+
+
+@st.composite
+def scaling_cases(draw):
+    case = draw(direct_cases())
+    case['image']['special'] = [s for s in case['image']['special']
+                                if isinstance(s[2], float) and s[2] != s[2]][:1]
+    case['image']['kind'] = draw(st.sampled_from(['int', 'normal']))
+    case['quantity'] = False
+    case['conv_special'] = []
+    case['factor'] = draw(st.sampled_from([2.0 ** -64, 2.0 ** -30, 2.0 ** 40,
+                                           2.0 ** -10, 4.0]))
+    return case
+
+
 DETCAT_COLS = ['xcentroid', 'ycentroid', 'bbox_xmin', 'bbox_xmax', 'bbox_ymin',
                'bbox_ymax', 'segment_area', 'area', 'equivalent_radius',
                'semimajor_sigma', 'semiminor_sigma', 'orientation',
@@ -496,6 +550,9 @@ SUBCHECKS = [
              'non-trivial = >=2 labels; shape/centroid columns must equal the '
              'detection catalog\'s, fluxes come from the new data',
              quick=(8, 120), thorough=(16, 2000)),
+    SubCheck('scaling', scaling_cases(), check_scaling,
+             'non-trivial = scale factor below 1e-9 or above 1e9 (very small / '
+             'large units)', quick=(8, 100), thorough=(16, 2000)),
     SubCheck('footprint', footprint_cases(), check_footprint,
              'non-trivial = >=2 labels (rows compared under outside-footprint '
              'changes, label renumbering and subsetting)',
